@@ -245,7 +245,7 @@ def run_harness(binp, mode, spec, args, outdir, timeout):
     os.makedirs(outdir, exist_ok=True)
     cmd = [binp, mode, "--prop", spec.get("prop_arg", spec["id"])] + args + ["--out", outdir]
     try:
-        r = sh(cmd, cwd=VERIF, timeout=timeout, env={"VERIF_REPO": REPO})
+        r = sh(cmd, cwd=VERIF, timeout=timeout, env={"VERIF_REPO": REPO, "VERIF_ROOT": VERIF})
         return r.returncode, r.stdout[-4000:]
     except subprocess.TimeoutExpired:
         return 124, "harness timed out after %ss" % timeout
